@@ -1,4 +1,6 @@
 SPECIFICATION Spec
 CONSTANT MaxStmts = 3
+CONSTANT LongN = 500
+CONSTANT OnlyLong = FALSE
 INVARIANT EndsSane
 CHECK_DEADLOCK FALSE
